@@ -127,7 +127,9 @@ func doubleWalkDiff(ctx context.Context, changeFn ChangeFunc, a, b walkerFn, fil
 				if rmdir != "" && strings.HasPrefix(f1.path, rmdir) {
 					f1 = nil
 					continue
-				} else if rmdir == "" && f1.stat.IsDir() {
+				} else if f1.stat.IsDir() {
+					// (also when the previous delete was a directory too: the
+					// guard moves on to this one)
 					rmdir = f1.path + string(filepath.Separator)
 				} else if rmdir != "" {
 					rmdir = ""
